@@ -13,7 +13,7 @@ FUNCTIONS = [
 ] + ["bacpypes.bvll:%s.%s" % (m, f) for m in _MSGS for f in ("encode", "decode")]
 LEMMAS = ["C09." + n for n in ("result", "write_bdt", "read_bdt", "read_bdt_ack", "forwarded_npdu", "register_foreign_device", "read_fdt",
                                "read_fdt_ack", "delete_fdt_entry", "distribute_broadcast", "original_unicast", "original_broadcast",
-                               "mismatch_refused", "ip_address", "codec_emits_frames")]
+                               "mismatch_refused", "ip_address", "codec_emits_frames", "codec_receives_any_datagram")]
 MIN_OBLIGATIONS = 200
 BOUNDED = "bounded.c09"
 ASSUMPTIONS = [
@@ -28,7 +28,9 @@ NOT_DECIDED = ["tables of unbounded length (loop invariants not yet supplied)"]
 EXPLANATION = ("BVLPDU.encode/decode and the encode/decode of all twelve functions carry contracts against an Annex J spec, verified on the real bodies; "
                "one lemma per function builds the message with the real constructor, runs the library's two-stage encode, checks 81/function/length/"
                "body with length == number of octets, decodes and compares parameters; a further lemma proves that a datagram is accepted only when "
-               "type and length agree, and one that AnnexJCodec.indication emits exactly one such frame.")
+               "type and length agree, and one that AnnexJCodec.indication emits exactly one such frame. Receive side: for a datagram of 0..16 arbitrary octets AnnexJCodec.confirmation "
+               "either hands exactly one message of the class the function octet names upward -- only when type octet and length field agree with the datagram -- or refuses it "
+               "(DecodingError; KeyError for a function code outside Annex J) and hands nothing upward.")
 LEVEL_TEXT = ("Proof for all inputs of the frame header (type, function, length == number of octets; stale length refused), of the nine functions without "
               "tables for every parameter value and every payload length up to the 16-bit limit, of six-octet address packing for all addresses/ports, "
               "and of datagram acceptance (only when type and length agree). The three table-carrying functions are proved for tables of 0..2 entries "
